@@ -74,6 +74,7 @@ KF_DINT_ND = "KF-setitem-dask-int-index-nd-value"
 KF_LEADING_ONE = "KF-setitem-value-extra-leading-dim"
 KF_WHERE_0D = "KF-ufunc-where-0d-out"
 KF_NEG_ZERO_CHUNK = "KF-negstep-slice-zero-width-chunk"
+KF_MASKED_0D = "KF-setitem-masked-0d"
 KF_SEPARATED = "KF-index-int-fancy-separated"
 KF_RESHAPE0 = "KF-reshape-zero-size"
 
@@ -117,7 +118,7 @@ def _chunks_ok(chunks, shape):
     assert isinstance(chunks, list) and len(chunks) == len(shape), "chunks rank"
     for c, n in zip(chunks, shape):
         assert isinstance(c, list) and c and all(isinstance(v, int) and not isinstance(v, bool) for v in c), "chunks"
-        assert sum(c) == n and (all(v > 0 for v in c) or c == [0]), "chunks do not fit"
+        assert sum(c) == n and all(v >= 0 for v in c), "chunks do not fit"
     return tuple(tuple(c) for c in chunks)
 
 
@@ -801,6 +802,8 @@ class Interp:
             self.tags.add(KF_DMASK_ARRAY)
         if any(e is None for e in key["tuple"]):
             self.tags.add(KF_NONE_KEY)
+        if val == "masked" and t.mirror.ndim == 0:
+            self.tags.add(KF_MASKED_0D)
         if has_neg_step(key) and has_zero_chunk(t.coll):
             self.tags.add(KF_NEG_ZERO_CHUNK)
         if nonscalar and sel is not None and np.ndim(np_val) > len(sel):
@@ -1340,6 +1343,9 @@ def _gen_value(D_, it, i, t, key, sel):
             return {"arr": {"shape": [D_.choice([1, sel[0]])], "dtype": t.dt, "salt": D_.int(0, 9)}}  # refused form
         return "masked" if k == "masked" else {"scalar": _gen_scalar(D_)}
     k = D_.weighted([("scalar", 5), ("array", 5), ("dnew", 3), ("dpool", 5), ("masked", 1)])
+    if k == "masked" and not t.shape and _steer(KF_MASKED_0D):
+        it.excluded.append(KF_MASKED_0D)
+        k = "scalar"
     if k == "masked":
         return "masked"
     if k == "scalar":
@@ -1400,7 +1406,7 @@ def gen_setitem(D_, it, family="any"):
         return None
     i = D_.choice(known) if known and not D_.chance(1, 8) else D_.choice(cands)
     if it.pool[i].weight > MAX_WEIGHT:
-        it.rejects.append("size-cap")
+        it.labels.add("size-cap")
         return None
     t = it.pool[i]
     key, expect = _gen_key(D_, it, i, t, family)
@@ -1462,7 +1468,7 @@ def gen_ufunc(D_, it):
         return None
     i = D_.choice(tg)
     if it.pool[i].weight > MAX_WEIGHT:
-        it.rejects.append("size-cap")
+        it.labels.add("size-cap")
         return None
     t = it.pool[i]
     dt = t.dt
@@ -1576,7 +1582,13 @@ def _make_machine(col, last=None):
         def _run(self, data, gen, **kw):
             if self.done:
                 return
-            step = gen(D(data.draw), self.it, **kw)
+            try:
+                step = gen(D(data.draw), self.it, **kw)
+            except AssertionError as e:
+                # generator bug (it asked the interpreter to decode something invalid): visible in `rejected`
+                col.reject(f"generator-assert:{gen.__name__}:{util.norm_msg(e, 60)}")
+                self.it.tags = set()
+                return
             if step is None:
                 return
             step = util.jsonable(step)
@@ -1915,6 +1927,7 @@ REGION_DOC = {
     KF_DINT_ND: "setitem with a 1-d dask int index and a value of >= 2 dimensions",
     KF_LEADING_ONE: "setitem with a value that has more dimensions than the selection (extra leading unit dimensions)",
     KF_WHERE_0D: "ufunc(..., out=v, where=mask) on a 0-d v",
+    KF_MASKED_0D: "x[...] = np.ma.masked on a 0-d x",
     KF_NEG_ZERO_CHUNK: "negative-step slice of a collection whose chunks contain a zero-width block next to other blocks (typical after compute_chunk_sizes)",
     KF_OUT_DTYPE: "ufunc(..., out=v) whose natural result dtype differs from v's dtype",
     KF_SLICE_UOUT: "a basic index / boolean mask applied to a collection whose expression contains an ufunc out= result",
